@@ -83,8 +83,23 @@ Definition fields (ds : string) (line : string) : list string := runs (segs ds l
    integer matters), with both renderings supplied by Python's % operator *)
 Inductive fclass := FIntegral | FFraction | FInf | FNan.
 
+(* str(int): decimal digits, most significant first, "-" for negatives *)
+Definition digit_char (d : Z) : ascii := ascii_of_nat (48 + Z.to_nat d).
+
+Fixpoint digs (fuel : nat) (n : Z) : string :=
+  match fuel with
+  | O => ""
+  | S f => if n <? 10 then String (digit_char n) ""
+           else digs f (n / 10) ++ String (digit_char (n mod 10)) ""
+  end.
+
+Definition print_nat (n : Z) : string := digs (S (Z.to_nat (Z.log2 n))) n.      (* n >= 0 *)
+
+Definition print_int (z : Z) : string :=
+  if z <? 0 then String "-"%char (print_nat (- z)) else print_nat z.
+
 Inductive value :=
-| VInt (text : string)                       (* str(int) *)
+| VInt (z : Z)                               (* rendered by str(int) = print_int *)
 | VStr (text : string)
 | VFloat (k : fclass) (t1f : string) (t16g : string).   (* "%.1f" % v  and  "%.16g" % v *)
 
@@ -106,7 +121,7 @@ Definition getformat (c : cfg) (k : fclass) : err + fmt :=
 (* the text _SubHelper.replace / replace_array inserts *)
 Definition render (c : cfg) (v : value) : err + string :=
   match v with
-  | VInt t => inr t
+  | VInt z => inr (print_int z)
   | VStr t => inr t
   | VFloat k t1 t16 => match getformat c k with
                        | inl e => inl e
@@ -434,21 +449,30 @@ Definition opt_exponent (s : string) : string * string :=
                    end
   end.
 
+Definition dot_rest (s : string) : option string :=
+  match s with
+  | String c r => if Ascii.eqb c "."%char then Some r else None
+  | EmptyString => None
+  end.
+
 Definition lex_float (s : string) : option (string * string) :=
   let (sg, r) := opt_sign s in
   match digits1 r with
-  | Some (d, String "."%char r1) =>
-      let (d2, r2) := span_digits r1 in
-      let (ex, r3) := opt_exponent r2 in
-      Some (sg ++ d ++ "." ++ d2 ++ ex, r3)
-  | Some _ => None
-  | None => match r with
-            | String "."%char r1 => match digits1 r1 with
-                                    | Some (d2, r2) => let (ex, r3) := opt_exponent r2 in
-                                                       Some (sg ++ "." ++ d2 ++ ex, r3)
-                                    | None => None
-                                    end
-            | _ => None
+  | Some (d, r0) =>
+      match dot_rest r0 with
+      | Some r1 =>
+          let (d2, r2) := span_digits r1 in
+          let (ex, r3) := opt_exponent r2 in
+          Some (sg ++ d ++ "." ++ d2 ++ ex, r3)
+      | None => None
+      end
+  | None => match dot_rest r with
+            | Some r1 => match digits1 r1 with
+                         | Some (d2, r2) => let (ex, r3) := opt_exponent r2 in
+                                            Some (sg ++ "." ++ d2 ++ ex, r3)
+                         | None => None
+                         end
+            | None => None
             end
   end.
 
